@@ -189,6 +189,9 @@ class Side:
             return ("encode-ok-decode-fails", f"encoding reported success, decoding failed for {what}"), None
         g2, _ = G.parse_geom(d, 2)
         gs, _ = G.parse_geom(r["skipall"], 2) if r["skipall"] and r["skipall"][0] == "ok" else (None, 0)
+        for gg in (g2, gs):
+            if gg is not None and (gg.valid() or any(getattr(a, "short", False) for a in gg.atts)):
+                return ("decoded-values-unreadable", f"the decoded geometry is not structurally valid ({gg.valid() or 'attribute buffer too small'}): decoded coordinates cannot be read for {what}"), None
         a2 = next((a for a in g2.atts if a.uid == self.uid), None)
         tag = next((a for a in g2.atts if a.uid == TAG_UID), None)
         if a2 is None or tag is None or a2.dtype != F32 or a2.ncomp != self.nc:
@@ -198,7 +201,7 @@ class Side:
         idx2 = g2.atts.index(a2)
         as_ = gs.atts[idx2] if idx2 < len(gs.atts) else None
         want_tr = f"q,{bits},{f32_bits(R)}," + ",".join(str(f32_bits(o)) for o in org)
-        if as_ is None or as_.dtype not in (G.DT["i32"], G.DT["u32"]) or as_.ncomp != self.nc:
+        if as_ is None or as_.dtype not in (G.DT["i32"], G.DT["u32"]) or as_.ncomp != self.nc or gs.num_points != g2.num_points:
             return ("explicit-no-integer-values", f"the decode with skipped transform does not expose the quantized integers of uid {self.uid} for {what}"), None
         # diagnosis only (the property speaks about the decoded values): parameters declared in the stream
         note = "" if as_.transform == want_tr else f" [the stream declares transform `{as_.transform}`, requested `{want_tr}`]"
